@@ -26,6 +26,8 @@ type Queue struct {
 	Log    []byte
 	Waits  int // number of times a reader had to block
 	rdDead bool
+	// deadline returns the reader's current read deadline (zero: none); set by the End that reads from the queue
+	deadline func() time.Time
 }
 
 func NewQueue() *Queue { return &Queue{wake: make(chan struct{}, 1)} }
@@ -97,8 +99,32 @@ func (p *Queue) Read(b []byte) (int, error) {
 			return 0, err
 		}
 		p.Waits++
+		dlf := p.deadline
 		p.mu.Unlock()
-		<-p.wake
+		var dl time.Time
+		if dlf != nil {
+			dl = dlf()
+		}
+		if dl.IsZero() {
+			<-p.wake
+			continue
+		}
+		// a read deadline is armed: like a real connection, the Read ends with a timeout error when it passes
+		// (inside a bubble this is the virtual clock)
+		d := time.Until(dl)
+		if d <= 0 {
+			return 0, timeoutErr{}
+		}
+		t := time.NewTimer(d)
+		select {
+		case <-p.wake:
+			t.Stop()
+		case <-t.C:
+			// re-check: the deadline may have been moved meanwhile
+			if cur := dlf(); !cur.IsZero() && !time.Now().Before(cur) {
+				return 0, timeoutErr{}
+			}
+		}
 	}
 }
 
@@ -132,10 +158,20 @@ type End struct {
 	name    string
 	mu      sync.Mutex
 	Closed  bool
+	// deadlines are honoured like on a real connection (virtual clock inside a bubble)
+	rdDL, wrDL time.Time
 }
 
-func (e *End) Read(b []byte) (int, error)  { return e.In.Read(b) }
-func (e *End) Write(b []byte) (int, error) { return e.Out.Write(b) }
+func (e *End) Read(b []byte) (int, error) { return e.In.Read(b) }
+func (e *End) Write(b []byte) (int, error) {
+	e.mu.Lock()
+	dl := e.wrDL
+	e.mu.Unlock()
+	if !dl.IsZero() && !time.Now().Before(dl) {
+		return 0, timeoutErr{} // the write deadline has passed (queues never fill up, so this is the only way to time out)
+	}
+	return e.Out.Write(b)
+}
 func (e *End) Close() error {
 	e.mu.Lock()
 	if e.Closed {
@@ -153,16 +189,41 @@ func (e *End) IsClosed() bool {
 	defer e.mu.Unlock()
 	return e.Closed
 }
-func (e *End) LocalAddr() net.Addr                { return addr(e.name) }
-func (e *End) RemoteAddr() net.Addr               { return addr("peer-of-" + e.name) }
-func (e *End) SetDeadline(t time.Time) error      { return nil }
-func (e *End) SetReadDeadline(t time.Time) error  { return nil }
-func (e *End) SetWriteDeadline(t time.Time) error { return nil }
+func (e *End) LocalAddr() net.Addr  { return addr(e.name) }
+func (e *End) RemoteAddr() net.Addr { return addr("peer-of-" + e.name) }
+func (e *End) SetDeadline(t time.Time) error {
+	e.SetReadDeadline(t)
+	return e.SetWriteDeadline(t)
+}
+func (e *End) SetReadDeadline(t time.Time) error {
+	e.mu.Lock()
+	e.rdDL = t
+	e.mu.Unlock()
+	// a blocked Read re-evaluates its deadline
+	select {
+	case e.In.wake <- struct{}{}:
+	default:
+	}
+	return nil
+}
+func (e *End) SetWriteDeadline(t time.Time) error {
+	e.mu.Lock()
+	e.wrDL = t
+	e.mu.Unlock()
+	return nil
+}
+func (e *End) readDeadline() time.Time {
+	e.mu.Lock()
+	defer e.mu.Unlock()
+	return e.rdDL
+}
 
 // NewDuplex returns the two ends of an in-memory connection.
 func NewDuplex() (client, server *End) {
 	c2s, s2c := NewQueue(), NewQueue()
-	return &End{In: s2c, Out: c2s, name: "client"}, &End{In: c2s, Out: s2c, name: "server"}
+	client, server = &End{In: s2c, Out: c2s, name: "client"}, &End{In: c2s, Out: s2c, name: "server"}
+	s2c.deadline, c2s.deadline = client.readDeadline, server.readDeadline
+	return client, server
 }
 
 // Live is a real server connection driven in lock-step from the calling
@@ -186,8 +247,16 @@ type Live struct {
 // NewLive starts the handler for one connection. implicitTLS wraps the
 // server side in tls.Server before it is served (as ListenAndServeTLS does).
 func NewLive(cfg Config, be *Backend, implicitTLS bool) *Live {
+	return NewLiveOn(nil, cfg, be, implicitTLS)
+}
+
+// NewLiveOn is NewLive on an existing server (several connections of one server); srv == nil makes a new one.
+func NewLiveOn(srv *smtp.Server, cfg Config, be *Backend, implicitTLS bool) *Live {
 	l := &Live{Cfg: cfg, Be: be, Log: &LogBuf{}}
-	l.Srv = cfg.NewServer(be, l.Log)
+	l.Srv = srv
+	if srv == nil {
+		l.Srv = cfg.NewServer(be, l.Log)
+	}
 	l.Client, l.Server = NewDuplex()
 	var nc net.Conn = l.Server
 	if implicitTLS {
